@@ -11,7 +11,10 @@ Tie:   (a) translator harness/translate/c06_card.py regenerates Gen_Card.v on ev
        (b) correspondence: generated binder-explicit queries over generated schemas compiled by the
            REAL compiler (ir.cardinality, ir.multiplicity, shape out_cardinality, accept/reject)
            vs the extracted model; Model.eval vs edb/tools/toy_eval_model.py on generated
-           conforming databases.
+           conforming databases.  The compiler's SECOND inference of a shape (late_compile_view_shapes:
+           the shape re-applied where a view type is exposed again) can only add rejections and is
+           not modelled: rejections raised there are observed in the real compiler by the driver,
+           counted, and left out of the accept/reject comparison (DESIGN C06).
 Monitors (on the real compiler's answer, independent of the model): toy_eval_model result sizes /
        duplicates / shape elements on every database; upstream's pinned labels
        (tests/test_edgeql_ir_{card,mult}_inference.py); an exploration stream with implicit path
@@ -128,6 +131,63 @@ def gen_cases(tier):
 
 
 DIRECTED_TEXT = []
+
+
+def gen_late_shape_cases(rnd, core, n):
+    """Directed stream for the late shape re-inference (viewgen.late_compile_view_shapes): a shape
+    whose elements mention a FOR variable, written in the FOR body, under a construct that exposes
+    the view type again (assert_*, DISTINCT, enumerate, tuple indirection, aliased FILTER, a FOR
+    that returns its iterator) or under one that does not (LIMIT, bare SELECT, ??, UNION).  The
+    real compiler accepts or rejects (first pass: compared with the model; second pass: marked
+    `late` by the observer); every accepted query is compared with the model as usual."""
+    out = []
+    pool = [(sch, dbs) for sch, _e, dbs in core[::max(1, len(core) // 40)]]
+    for k in range(n):
+        sch_sx, dbs = rnd.choice(pool)
+        sch = G.Schema(sch_sx)
+        tid = rnd.choice(list(sch.types))
+        t2 = rnd.choice(list(sch.types))
+        x, y, w = 1, 2, 3
+        props = [p for p in sch.types[t2] if sch.ptrs[p]['kind'] in 'is']
+        it_kind = rnd.choice(('root', 'root', 'lit', 'prop', 'aexists', 'dup', 'limit1'))
+        if it_kind == 'prop' and not props:
+            it_kind = 'root'
+        it = {'root': ['root', t2], 'lit': ['lit', '1', '2'], 'aexists': ['call', 'aexists', ['root', t2]],
+              'dup': ['union', ['root', t2], ['root', t2]], 'limit1': ['limit', ['root', t2], '1'],
+              'prop': ['ptr', ['root', t2], props[0] if props else 0]}[it_kind]
+        is_obj = it_kind in ('root', 'aexists', 'dup', 'limit1')
+        v = ['var', x]
+        bodies = [v, ['sel', v], ['coal', v, v] if not is_obj else v, ['call', 'count', v], ['exists', v]]
+        if is_obj:
+            own = sch.types[t2]
+            if own:
+                bodies += [['ptr', v, rnd.choice(own)], ['call', 'count', ['ptr', v, rnd.choice(own)]]]
+            bodies.append(['limitx', ['root', tid], ['call', 'count', v]])
+        elif it_kind == 'lit':
+            bodies.append(['limitx', ['root', tid], v])
+        body = rnd.choice(bodies)
+        q = rnd.choice(('r', 'r', 'rs', 'rm', '-', 's', 'm', 'o'))
+        shape = ['shape', y, ['root', tid], ['el', 'z1', q, body]]
+        if rnd.random() < 0.3:
+            shape.append(['el', 'z2', rnd.choice(('-', 'r')), ['lit', 's0']])
+        f = ['for', x, it, shape]
+        wrap = rnd.choice(('adistinct', 'aexists', 'asingle', 'distinct', 'proj', 'enum', 'alias', 'foriter',
+                           'inner', 'limit', 'sel', 'coal', 'union', 'none', 'count', 'el'))
+        e = {'adistinct': ['call', 'adistinct', f], 'aexists': ['call', 'aexists', f],
+             'asingle': ['call', 'asingle', f], 'distinct': ['distinct', f],
+             'proj': ['proj', ['tup', f, ['lit', '1']], '0'], 'enum': ['proj', ['call', 'enumerate', f], '1'],   # (a top-level tuple of objects is outside the calculus)
+             'alias': ['filter', w, f, ['lit', 'true']], 'foriter': ['for', w, f, ['var', w]],
+             'inner': ['for', x, it, ['call', 'adistinct', shape]],
+             'limit': ['limit', f, '1'], 'sel': ['sel', f], 'coal': ['coal', f, ['root', tid]],
+             'union': ['union', f, ['root', tid]], 'none': f, 'count': ['call', 'count', ['call', 'adistinct', f]],
+             'el': ['shape', w, ['root', tid], ['el', 'z9', rnd.choice(('-', 'r', 'm')), ['call', 'adistinct', f]]],
+             }[wrap]
+        try:
+            G.render_query(e)
+        except (ValueError, KeyError, IndexError):
+            continue
+        out.append((sch_sx, e, dbs[:2]))
+    return out
 
 
 def gen_inheritance_cases(rnd, n):
@@ -254,13 +314,23 @@ def compare(case, r, mline):
     head, tags, evs = split_model(mline)
     ih = impl_head(r, e)
     dis = None
+    late = False
     if ih.startswith('ERR') or head.startswith('ERR'):
         if ih.startswith('ERR') != head.startswith('ERR'):
-            dis = 'accept'
+            if ih.startswith('ERR') and r.get('late'):
+                # rejected while the shape of a view type was RE-inferred where that type is exposed
+                # again (viewgen.late_compile_view_shapes; observer in impl/c06_impl.py).  Model.v
+                # models the inference of a shape where it is written, not this second pass; the
+                # first pass - what the model describes - had accepted the query (an error of the
+                # first pass is raised first and carries no `late` mark).  A rejection cannot
+                # contradict C06 (it speaks of accepted queries); counted, not compared.
+                late = True
+            else:
+                dis = 'accept'
     elif ih != head:
         a, b = ih.split(' '), head.split(' ')
         dis = 'card' if a[1] != b[1] else 'mult' if a[2] != b[2] else 'shape'
-    ev = {'agree': 0, 'diff': 0, 'unsupported': 0, 'assert': 0}
+    ev = {'agree': 0, 'diff': 0, 'unsupported': 0, 'assert': 0, 'late': int(late)}
     first_diff = None
     if not ih.startswith('ERR') and not head.startswith('ERR'):
         for x, y in zip(r['r'], evs):
@@ -443,6 +513,8 @@ def run(tier):
     corp = corpus()
     corp_core = [tuple(G.dec_case(c['case'])) for c in corp if 'case' in c]
     corp_text = [c for c in corp if 'text' in c]
+    late_cases = gen_late_shape_cases(lib.rng('C06late'), core, 160 if not thorough else 600)
+    core = core + late_cases
     cases = corp_core + core + mal
     lines = [G.enc_case(*c) for c in cases]
     impl = run_impl(lines)
@@ -453,7 +525,8 @@ def run(tier):
 
     # ---- compare + classify
     dis_by_kind = {}
-    evstat = {'agree': 0, 'agree_up_to_order': 0, 'diff': 0, 'unsupported': 0, 'assert': 0}
+    evstat = {'agree': 0, 'agree_up_to_order': 0, 'diff': 0, 'unsupported': 0, 'assert': 0, 'late': 0}
+    late_idx = []
     eval_diffs = []
     mon_hits = []          # (index, tags)
     tagdist = {}
@@ -470,6 +543,8 @@ def run(tier):
             d, ev, tags, fd = compare(c, r, model[i])
             for kk in evstat:
                 evstat[kk] += ev.get(kk, 0)
+            if ev.get('late'):
+                late_idx.append(i)
             if d:
                 # the malformed stream may be rejected for type reasons the untyped model does not see
                 if not (i >= len(corp_core) + len(core) and r.get('err') and str(r['err']).startswith('E:other')):
@@ -757,7 +832,22 @@ def run(tier):
                     if i < len(impl)],
         'traces_validated_against_impl': len(cases) if model is not None else 0,
         'model_vs_impl_disagreements': {k: len(v) for k, v in dis_by_kind.items()},
-        'eval_model_vs_toy': evstat,
+        'eval_model_vs_toy': {k: v for k, v in evstat.items() if k != 'late'},
+        'late_shape_reinference': {
+            'what': 'queries the real compiler rejects only in its SECOND inference of a shape (the shape of a '
+                    'view type re-applied where the type is exposed again: viewgen.late_compile_view_shapes) '
+                    'while the first inference - the one Model.v describes - accepted them; observed inside the '
+                    'real compiler by impl/c06_impl.py (_observe_late_shapes), counted, not compared (a '
+                    'rejection cannot contradict C06)',
+            'rejected_in_second_pass': len(late_idx),
+            'by_error': {k: sum(1 for i in late_idx if impl[i].get('err') == k)
+                         for k in sorted({impl[i].get('err') for i in late_idx})},
+            'directed_stream_cases': len(late_cases),
+            'directed_stream_accepted_and_compared': sum(
+                1 for i in range(len(cases)) if any(cases[i] is lc for lc in late_cases)
+                and not impl[i].get('err')),
+            'examples': [impl[i].get('q') for i in sorted(late_idx, key=lambda j: len(lines[j]))[:3]],
+        },
         'coq_vm_compute_cross_checked': n_coq,
         'monitor_hits_core': len(mon_hits),
         'monitor_hits_explained_by_known_findings': {k: len(v) for k, v in reported_ids.items()},
@@ -771,6 +861,7 @@ def run(tier):
         'expression_sizes': dict(sorted(sizes.items())),
         'database_object_counts': dict(sorted(dbsizes.items())),
         'streams': {'corpus': len(corp_core) + len(corp_text), 'core': len(core), 'malformed': len(mal),
+                    'of_core_directed_late_shape': len(late_cases),
                     'implicit_factoring': len(libt), 'inheritance_unions': len(inh)},
         'translator': manifest if manifest else {'error': tr_err},
         'substrate': 'harness/rt/vrt.py (stub natives, substitute LR parser, cached std schema); see harness/rt/STATUS.md',
@@ -794,6 +885,8 @@ def run(tier):
         'container unions not covered; ill-typed terms excluded)',
         'primitives are the closed set of Model.sem1/sem2 (std operators and functions of the calculus)',
         'queries are binder-explicit; implicit path factoring is covered by the monitors only',
+        'the second inference of a re-applied shape (viewgen.late_compile_view_shapes) is not modelled: it can '
+        'only reject; its rejections are observed in the real compiler and counted (late_shape_reinference)',
     ]
     rep.notes.append(f'wall before finish {time.time() - t0:.1f}s; phases: ' + ', '.join(f'{k}={v:.0f}s' for k, v in PH.items()))
     return rep.finish()
